@@ -52,7 +52,7 @@ META = dict(
         "the anchor is compared to its printed digits only: 1.798 (3 decimals), 2200 (to the unit), 25.3 (1 decimal)",
         "E = 1/2 m v^2 between the velocity and the energy conversion is not asserted separately (the statement "
         "links them through the anchor only)",
-        "vectors are numpy float arrays",
+        "vectors are numpy float arrays; every 7th vector is also given as a plain list (as the library's own tests do)",
     ],
     level_text="bounded-exhaustive over the compound graph and its edges; grid for the real parameters",
     level_note="trusted base: numpy float arithmetic and the scale computation in mc/ref/neutron.py",
@@ -359,7 +359,10 @@ class Edges(object):
                 acc.states += 1
                 acc.nontrivial += 1
                 case = dict(kind="vector", frags=jf, density=d, vector=vec, how=how)
-                if how == "wavelength":
+                if how == "wavelength" and vi % 7 == 3:
+                    arg = list(vec)                      # a plain list (the library's own tests pass lists)
+                    vsrc = "%s, density=%r, wavelength=%r" % (src, d, vec)
+                elif how == "wavelength":
                     arg = np.array(vec, dtype=float)
                     vsrc = "%s, density=%r, wavelength=np.array(%r)" % (src, d, vec)
                 else:
